@@ -15,7 +15,9 @@ using tbox::event::Loop;
 namespace {
 enum { CFG, PHASE, SUB, SPIN, NOPS };
 enum Entry { E_RUNINLOOP = 0, E_RUNNEXT = 1, E_RUN = 2 };
-enum Beh { B_NONE = 0, B_CHILD_NEXT, B_CHILD_INLOOP, B_CHILD_RUN, B_CANCEL, B_EXIT, B_BUSY, B_NBEH };
+enum Beh { B_NONE = 0, B_CHILD_NEXT, B_CHILD_INLOOP, B_CHILD_RUN, B_CANCEL, B_EXIT, B_BUSY, B_NBEH,
+           // later additions, only reachable through the SUB op (the derived behaviours below keep using B_NBEH so that old replay files keep their meaning)
+           B_CANCEL_SELF = B_NBEH, B_CHAIN, B_NBEH2 };
 const int kMaxThreads = 4;      // submitter threads
 const int kMaxTasks = 6000;
 const int kCtlThread = kMaxThreads + 1;   // pseudo submitter index of controller threads
@@ -107,11 +109,22 @@ struct Ctx {
         else cancels_false++;
         break; }
       case B_EXIT: loop->exitLoop(); break;
+      case B_CANCEL_SELF: {   // a task cancels its own id while it is being invoked: it is not pending any more, so this must not succeed
+        uint64_t id = t.run_id.load(); if (id == 0) break;
+        self_cancels++;
+        if (loop->cancel(id)) error_from_task = "cancel() of the id of the task that is being invoked returned true";
+        break; }
+      case B_CHAIN: if (chain_allowed.load() && !chain_active) { chain_active = true; chains_started++; loop->runNext([this] { chain_step(); }, "chain"); } break;
       case B_BUSY: spin_us((unsigned)(t.arg % 60)); break;
       default: break;
     }
   }
   const char *error_from_task = nullptr;   // written on the loop thread only, read by main after joins
+  // B_CHAIN: a task that keeps re-posting itself with runNext() for as long as the current runLoop(kForever) phase waits for
+  // its exit task - the loop never goes idle, yet callables handed in through runInLoop() must still be invoked
+  std::atomic<bool> chain_allowed{false}; bool chain_active = false; std::atomic<uint64_t> chain_steps{0}; int chains_started = 0;
+  int self_cancels = 0;
+  void chain_step() { chain_steps++; if (chain_allowed.load()) loop->runNext([this] { chain_step(); }, "chain"); else chain_active = false; }
 };
 
 struct SubStep { int kind; int entry; int count; int beh; int arg; unsigned us; };   // kind 0 submit, 1 spin
@@ -127,7 +140,7 @@ std::string run(const Scenario &s, CaseInfo &info) {
       case CFG: backend = (int)op.in(0, 0, 1); nthreads = (int)op.in(1, 0, kMaxThreads);
         for (int t = 0; t < kMaxThreads; ++t) start_phase[t] = (int)op.in(2 + t, 0, 6); break;
       case PHASE: if (phases.size() < 8) phases.push_back({(int)op.in(0, 0, 3), (int)op.in(1, 0, 1000), (int)op.in(2, 0, 1000), (int)op.in(3, 0, 1000), (int)op.in(4, 0, 1000)}); break;
-      case SUB: script[op.in(0, 0, kMaxThreads - 1)].push_back({0, 0, (int)op.in(1, 1, 40), (int)op.in(2, 0, B_NBEH - 1), (int)op.in(3, 0, 100000), 0}); break;
+      case SUB: script[op.in(0, 0, kMaxThreads - 1)].push_back({0, 0, (int)op.in(1, 1, 40), (int)op.in(2, 0, B_NBEH2 - 1), (int)op.in(3, 0, 100000), 0}); break;
       case SPIN: script[op.in(0, 0, kMaxThreads - 1)].push_back({1, 0, 0, 0, 0, (unsigned)op.in(1, 0, 2000)}); break;
       default: break;
     }
@@ -201,7 +214,7 @@ std::string run(const Scenario &s, CaseInfo &info) {
             if (i < 0) return;
             c.tasks[i].is_exit_of_phase = is_exit;
             uint64_t id;
-            if (is_exit) id = c.loop->runInLoop([&c, exit_executed_p, i] { c.exec(i); *exit_executed_p = true; c.loop->exitLoop(); }, "exit");
+            if (is_exit) id = c.loop->runInLoop([&c, exit_executed_p, i] { c.exec(i); *exit_executed_p = true; c.chain_allowed = false; c.loop->exitLoop(); }, "exit");
             else id = c.loop->runInLoop([&c, i] { c.exec(i); }, "late");
             c.tasks[i].run_id.store(id);
           };
@@ -211,21 +224,25 @@ std::string run(const Scenario &s, CaseInfo &info) {
           for (int k = 0; k < late_after; ++k) { post(false); c.late_after_exit++; }
         });
         // sentinel: fires every 400 ms; a cross-thread exit task not run 2 s after submission while the loop is
-        // otherwise idle is a lost wake-up (timers wake the loop but do not process runInLoop tasks)
+        // otherwise idle - or kept busy by a runNext() chain - is a lost wake-up (timers wake the loop but do not process runInLoop tasks)
         tbox::event::TimerEvent *sentinel = c.loop->newTimerEvent("sentinel");
         sentinel->initialize(std::chrono::milliseconds(400), tbox::event::Event::Mode::kPersist);
         sentinel->setCallback([&] {
           int64_t at = exit_submitted_at.load();
-          if (at != 0 && !exit_executed.load() && steady_ms() - at > 2000) { lost_wakeup = true; c.loop->exitLoop(); }
+          if (at != 0 && !exit_executed.load() && steady_ms() - at > 2000) { lost_wakeup = true; c.chain_allowed = false; c.loop->exitLoop(); }
         });
         sentinel->enable();
         if (runs++ > 0) reran = true;
+        c.chain_allowed = true;
+        // a third of the phases start the runNext() chain before the loop runs, so that the controller's exit task always arrives while the chain is going
+        if ((ph.c / 4) % 3 == 2 && !c.chain_active) { c.chain_active = true; c.chains_started++; c.loop->runNext([&c] { c.chain_step(); }, "chain"); }
         c.loop->runLoop(Loop::Mode::kForever);
+        c.chain_allowed = false;
         if (drain_err.empty()) drain_err = check_drained(pi);
         sentinel->disable();
         delete sentinel;
         ctl.join();
-        if (lost_wakeup) { lost_msg = "TIMING: lost wake-up: exit task submitted through runInLoop() from another thread was not run within 2 s by a loop idling in runLoop(kForever) (phase " + std::to_string(pi) + ")"; }
+        if (lost_wakeup) { lost_msg = "TIMING: lost wake-up: exit task submitted through runInLoop() from another thread was not run within 2 s by a loop in runLoop(kForever) (phase " + std::to_string(pi) + (c.chains_started ? ", a runNext() chain kept the loop busy" : ", loop idle") + ")"; }
         break; }
       case 2: {   // runLoop(kOnce); make sure the pass cannot block
         c.submit_main(E_RUNNEXT, B_NONE, 0, 0);
@@ -292,6 +309,8 @@ std::string run(const Scenario &s, CaseInfo &info) {
   info.cls_if(reran, "rerun_after_exit");
   info.cls_if(backend == 1, "select_backend");
   info.cls_if(runs == 0, "never_run_only_destroyed");
+  info.cls_if(c.self_cancels > 0, "task_cancels_its_own_id_while_running");
+  info.cls_if(c.chains_started > 0 && c.chain_steps.load() > 10, "runNext_chain_keeps_loop_busy_while_exit_task_arrives");
   info.nontrivial = n > 0 && ((nthreads >= 2 && runs > 0) || any_cancel || c.late_after_exit.load() > 0 || reran);
   return "";
 }
@@ -309,7 +328,7 @@ SubDef def = [] {
     auto phase = mkop(PHASE, {rc::gen::weightedOneOf<int64_t>({{2, rc::gen::just<int64_t>(0)}, {5, rc::gen::just<int64_t>(1)}, {2, rc::gen::just<int64_t>(2)}, {1, rc::gen::just<int64_t>(3)}}), range(0, 1000), range(0, 1000), range(0, 1000), range(0, 1000)});
     auto phases = rc::gen::resize(6, rc::gen::container<std::vector<Op>>(phase));
     auto subop = rc::gen::weightedOneOf<Op>({
-      {6, mkop(SUB, {th, range(1, 40), range(0, B_NBEH - 1), range(0, 100000)})},
+      {6, mkop(SUB, {th, range(1, 40), range(0, B_NBEH2 - 1), range(0, 100000)})},
       {2, mkop(SPIN, {th, rc::gen::weightedOneOf<int64_t>({{3, range(0, 60)}, {1, range(0, 2000)}})})},
     });
     return rc::gen::apply([](std::vector<Op> h, std::vector<Op> p, std::vector<Op> b) {
